@@ -42,6 +42,7 @@ def build(cfg):
     from amaranth_soc.csr.wishbone import WishboneCSRBridge
     from amaranth_soc.csr.event import EventMonitor
     from amaranth_soc.wishbone.sram import WishboneSRAM
+    from amaranth_soc.memory import MemoryMap
     m = Module()
     extra_inputs = []
     srams = []
@@ -76,6 +77,31 @@ def build(cfg):
                     extra_inputs.append((uid("set"), r.f.f.set))
             x = csr.Bridge(b.as_memory_map())
             m.submodules[uid("bridge")] = x
+            return x.bus
+        if kind == "mux":
+            # a csr.Multiplexer used directly over a hand-made map; `late` = number of registers in the map when
+            # the multiplexer object is constructed (it does not freeze its map; None = all of them)
+            _, aw, regs, late = node
+            mm = MemoryMap(addr_width=aw, data_width=8)
+            x = None
+            for k, (w, addr, acc) in enumerate(regs):
+                if late == k:
+                    x = csr.Multiplexer(mm)
+                act = dict(rw=action.RW, w=action.W, r=action.R, rw1c=action.RW1C)[acc]
+
+                class MReg(csr.Register, access=dict(rw="rw", w="w", r="r", rw1c="rw")[acc]):
+                    def __init__(self):
+                        super().__init__({"f": csr.Field(act, w)})
+                r = MReg()
+                m.submodules[uid("mreg")] = r
+                mm.add_resource(r, name=(f"m{k}",), size=max(1, -(-w // 8)), addr=addr)
+                if acc == "r":
+                    extra_inputs.append((uid("rin"), r.f.f.r_data))
+                if acc == "rw1c":
+                    extra_inputs.append((uid("set"), r.f.f.set))
+            if x is None:
+                x = csr.Multiplexer(mm)
+            m.submodules[uid("mux")] = x
             return x.bus
         if kind == "evmon":
             _, n, align = node
@@ -220,6 +246,18 @@ class Observer:
             if cfg.get("all_sel"):
                 sels = list(range(1, 1 << nl))
         self.xfers = [(adr, we, sel) for adr in range(1 << meta["aw"]) for we in (0, 1) for sel in sels]
+        # back-to-back mode: a step is a PAIR of transfers with no idle cycle in between (cyc and stb stay high after
+        # the acknowledge, as in a Wishbone block cycle).  First transfers: the first and last word of every leaf and
+        # of every kind of hole, read and write, all lanes; second transfers: everything.
+        self.b2b = bool(cfg.get("b2b"))
+        cls = {}
+        for adr in range(1 << meta["aw"]):
+            g0 = adr * nl
+            k = meta["decode"][g0] if g0 < len(meta["decode"]) else None
+            key = k if k is not None else ("hole", any(w["start"] <= g0 < w["start"] + w["span"] for w in self.windows))
+            cls.setdefault(key, []).append(adr)
+        reps = sorted({a for v in cls.values() for a in (v[0], v[-1])})
+        self.first = [(adr, we, full) for adr in reps for we in (0, 1)]
         self.n_sram = meta["n_srams"]
 
     # ---- letters -------------------------------------------------------------------------------------
@@ -238,7 +276,9 @@ class Observer:
         if phase[0] == "idle":
             if n_done >= self.depth:
                 return []
-            return [self.mk(adr, 1, 1, we, sel, self.dat(adr, n_done & 1)) for adr, we, sel in self.xfers]
+            return [self.mk(adr, 1, 1, we, sel, self.dat(adr, n_done & 1)) for adr, we, sel in (self.first if self.b2b else self.xfers)]
+        if phase[0] == "next":
+            return [self.mk(adr, 1, 1, we, sel, self.dat(adr, 1 - phase[1][3])) for adr, we, sel in self.xfers]
         if phase[0] == "xfer":
             _, t, adr, we, sel, fl = phase[:6]
             return [self.mk(adr, 1, 1, we, sel, self.dat(adr, fl))]
@@ -252,8 +292,10 @@ class Observer:
         pi, ii = self.pi, self.ii
         if phase[0] == "idle":
             fl = n_done & 1
-            phase = ("xfer", 0, letter[ii["adr"]], letter[ii["we"]], letter[ii["sel"]], fl, 0, None)
-        kind, t, adr, we, sel, fl, acks, dat_r = phase
+            phase = ("xfer", 0, letter[ii["adr"]], letter[ii["we"]], letter[ii["sel"]], fl, 0, None, None)
+        elif phase[0] == "next":
+            phase = ("xfer", 0, letter[ii["adr"]], letter[ii["we"]], letter[ii["sel"]], 1 - phase[1][3], 0, None, phase[1])
+        kind, t, adr, we, sel, fl, acks, dat_r, prev = phase
         # record what the leaves see in this cycle
         ev = []
         for n, k in enumerate(self.reg_leaf):
@@ -273,24 +315,35 @@ class Observer:
                 dat_r = outs[pi["dat_r"]]
         if kind == "xfer":
             if outs[pi["ack"]] or t >= self.horizon:
-                return None, (("cool", 0, adr, we, sel, fl, acks, dat_r), n_done, txn, mems, events)
-            return None, (("xfer", t + 1, adr, we, sel, fl, acks, dat_r), n_done, txn, mems, events)
+                if self.b2b and prev is None:
+                    # the next transfer is presented in the very next cycle
+                    return None, (("next", (adr, we, sel, fl, acks, dat_r)), n_done, txn, mems, events)
+                return None, (("cool", 0, adr, we, sel, fl, acks, dat_r, prev), n_done, txn, mems, events)
+            return None, (("xfer", t + 1, adr, we, sel, fl, acks, dat_r, prev), n_done, txn, mems, events)
         # cooling down: two idle cycles so that registered write strobes are seen, then compare
         if t < 2:
-            return None, (("cool", t + 1, adr, we, sel, fl, acks, dat_r), n_done, txn, mems, events)
-        err, txn, mems = self.compare(adr, we, sel, fl, acks, dat_r, txn, mems, events, outs)
-        if err is not None:
-            return err, obs
-        return None, (("idle",), n_done + 1, txn, mems, ())
+            return None, (("cool", t + 1, adr, we, sel, fl, acks, dat_r, prev), n_done, txn, mems, events)
+        ri0 = wi0 = 0
+        cyc0 = set()
+        if prev is not None:
+            r = self.compare(*prev, txn, mems, events, outs, 0, 0, False, set(), "first of a back-to-back pair: ")
+            if r[0] is not None:
+                return r[0], obs
+            _, txn, mems, ri0, wi0, cyc0 = r
+        r = self.compare(adr, we, sel, fl, acks, dat_r, txn, mems, events, outs, ri0, wi0, True, cyc0,
+                         "second of a back-to-back pair: " if prev is not None else "")
+        if r[0] is not None:
+            return r[0], obs
+        return None, (("idle",), n_done + 1, r[1], r[2], ())
 
-    def compare(self, adr, we, sel, fl, acks, dat_r, txn, mems, events, outs):
+    def compare(self, adr, we, sel, fl, acks, dat_r, txn, mems, events, outs, ri0=0, wi0=0, final=True, cyc_before=(), tag=""):
         pi = self.pi
         lanes = self.lanes
         g0 = adr * lanes
         in_window = any(w["start"] <= g0 < w["start"] + w["span"] for w in self.windows)
 
         def fail(msg, what):
-            return dict(msg=f"transfer adr={adr} we={we} sel={sel:#b}: {msg}", signature=dict(kind="oracle", what=what)), txn, mems
+            return dict(msg=f"{tag}transfer adr={adr} we={we} sel={sel:#b}: {msg}", signature=dict(kind="oracle", what=what)), txn, mems
 
         if in_window and acks != 1:
             return fail(f"acknowledged {acks} times, expected exactly once (address inside a window)", "ack")
@@ -304,7 +357,7 @@ class Observer:
         obs_r = [e for e in events if e[0] == "r"]
         obs_w = [e for e in events if e[0] == "w"]
         obs_cyc = sorted({e[1] for e in events if e[0] == "cyc"})
-        ri = wi = 0
+        ri, wi = ri0, wi0
         new_mems = list(mems)
         exp_cyc = set()
         for i in range(lanes):
@@ -353,7 +406,7 @@ class Observer:
                     return fail(f"register {self.leaves[self.reg_leaf[k]]['path']} written with {obs_w[wi][2]:#x}, expected {v:#x} under mask {mk:#x}", "w_data")
                 wi += 1
             st = (nst[0], nst[1], ("zero",), None)
-        if ri != len(obs_r) or wi != len(obs_w):
+        if final and (ri != len(obs_r) or wi != len(obs_w)):
             extra = obs_r[ri:] + obs_w[wi:]
             return fail(f"leaf strobes the map does not account for: {[(e[0], self.leaves[self.reg_leaf[e[1]]]['path']) for e in extra]}", "spurious_strobe")
         if not in_window:
@@ -364,10 +417,11 @@ class Observer:
                 lf = self.leaves[k]
                 if lf["start"] <= g0 < lf["end"]:
                     exp_cyc.add(lf["sram"])
-        if set(obs_cyc) - exp_cyc:
+        exp_cyc = exp_cyc | set(cyc_before)
+        if final and set(obs_cyc) - exp_cyc:
             return fail(f"SRAM(s) {sorted(set(obs_cyc) - exp_cyc)} saw a bus cycle although the address decodes elsewhere", "sram_cyc")
         for mi, k in enumerate(self.mems):
-            if outs[pi[f"mem{k}"]] != new_mems[mi]:
+            if final and outs[pi[f"mem{k}"]] != new_mems[mi]:
                 return fail(f"memory {self.leaves[k]['path']} is {outs[pi[f'mem{k}']]}, expected {new_mems[mi]}", "memory")
         if not we and in_window:
             for i, e in lane_expect.items():
@@ -376,7 +430,7 @@ class Observer:
                     return fail(f"lane {i} (granule {g0 + i}, unassigned or write-only) reads {got:#x}, expected zero", "read_zero")
                 if e[0] == "val" and got != e[1]:
                     return fail(f"lane {i} (granule {g0 + i}) reads {got:#x}, expected {e[1]:#x}", "read_data")
-        return None, (st[0], st[1]), tuple(new_mems)
+        return None, (st[0], st[1]), tuple(new_mems), ri, wi, exp_cyc
 
 
 # ---------------------------------------------------------------------------------------------------
@@ -397,6 +451,8 @@ def configs(tier):
     ev3 = ("evmon", 3, 1)
     ev20 = ("evmon", 20, 0)        # 3-chunk mask registers: 'pending' sits at the unaligned range 3..6
     gp = ("gpio", 2, 2)
+    mx_late = ("mux", 3, [(8, None, "rw"), (16, 2, "rw"), (8, None, "r"), (12, 6, "rw")], 2)
+    mx_all = ("mux", 3, [(20, 1, "rw"), (8, None, "w")], None)
     cdec1 = ("dec", 5, 0, [S(br_a, name="a"), S(ev1), S(gp, name="gpio")])
     cdec2 = ("dec", 5, 0, [S(ev3, addr=16), S(br_b, addr=0, name="b")])
     cdec_nested = ("dec", 6, 0, [S(br_c, name="c"), S(("dec", 4, 0, [S(ev1, name="ev"), S(br_b)]), name="inner", align_to=5)])
@@ -418,6 +474,10 @@ def configs(tier):
         add(dw, aw, [S(("csr", br_a)), S(("sram", 4 if lanes <= 4 else 8, True), align_to=5), S(("csr", ev3, "ev"), name=None)], align=3)
         if not quick or dw in (8, 32):
             add(dw, aw, [S(("sram", 8, True)), S(("csr", ("dec", 5, 0, [S(ev20, name="irq"), S(br_c)])), name="p")])
+            # csr.Multiplexer used directly: under a decoder (two registers added after the multiplexer object was
+            # made) and directly under the Wishbone bridge
+            add(dw, aw, [S(("csr", ("dec", 5, 0, [S(mx_late, name="mx"), S(br_c)])), name="p"), S(("csr", mx_all), name="q"),
+                         S(("sram", 8, True))])
         if not quick or dw == 16:
             add(dw, aw + 1, [S(("sram", 8, True)), S(("csr", cdec_nested), name="n")])
             add(dw, aw, [S(("csr", gp)), S(("csr", br_c), name="c"), S(("sram", 8, True))])
@@ -430,7 +490,15 @@ def configs(tier):
         c.setdefault("depth", depth)
         if not quick and c["dw"] == 32:
             c["all_sel"] = True
-    return out
+    # back-to-back pairs of transfers (no idle cycle between the acknowledge and the next transfer)
+    pairs = []
+    for i, c in enumerate(out):
+        if c.get("all_sel") and c["dw"] == 32 and quick:
+            continue
+        if quick and i % 3 != 0:
+            continue
+        pairs.append(dict(c, b2b=True, depth=1 if quick else 2, all_sel=False))
+    return out + pairs
 
 
 def run_config(cfg, tier, seed):
@@ -462,7 +530,9 @@ def main(tier, seed):
 ASSUMPTIONS = [
     "Amaranth 0.5.10 front end, build_netlist and Simulator are the trusted base", "rst held at 0",
     "write data are address-derived byte tokens; pin / event / read-only register inputs are held at fixed non-zero patterns",
-    "the initiator performs one transfer at a time, holds it until acknowledged or for ratio+6 cycles (horizon), then idles 3 cycles",
+    "the initiator performs one transfer at a time, holds it until acknowledged or for ratio+6 cycles (horizon), then idles 3 cycles; "
+    "configurations flagged b2b: pairs of transfers with no idle cycle in between (first transfer: first/last word of every leaf and "
+    "hole, all lanes; second transfer: every address, direction and select mask)",
     "inside a Wishbone-to-CSR bridge's window the bridge acknowledges every transfer (C10 requires it): for holes there only "
     "'no leaf strobe, zero read data' is required; 'never acknowledged' applies to addresses no Wishbone window covers",
     "transaction depth bounded (configs explore a prefix of the quiescent-state graph; counted as capped)",
